@@ -650,6 +650,13 @@ def contains(interp, st, container, item, node=None):
         return z3.Exists([k], z3.And(k >= 0, k < to_z3(container.dims[0]), *[container.select([k, c]) == to_z3(key[c]) for c in range(len(key))]))
     if isinstance(container, str) and isinstance(item, str):
         return item in container
+    I_ = _I()
+    if isinstance(container, I_.ObjMethod):
+        container = container.value
+    if I_.is_obj(container) and (isinstance(item, (str, int)) or is_sym(item)):
+        # membership in an object we do not look into: an unknown but fixed predicate of (object, item)
+        it = z3.StringVal(item) if isinstance(item, str) else to_z3(item)
+        return z3.Function(f"obj.contains_{it.sort()}", I_.OBJ_SORT, it.sort(), z3.BoolSort())(container, it)
     if hasattr(interp.lib, "tok_contains"):
         r = interp.lib.tok_contains(interp, st, container, item, node)
         if r is not None:
